@@ -250,7 +250,8 @@ class World:
                     pass
             os.unlink(logp)
         os.unlink(specp)
-        return {"rc": rc, "log": (out + err)[-3000:], "ops": ops}
+        full = out + err
+        return {"rc": rc, "log": full[-3000:], "ops": ops, "errw": "window" in full.lower()}
 
     def written(self, ops):
         """which final names were (re)placed during a run: (revised?, [per chromosome set of {1 G, 2 T, 3 O}])"""
@@ -422,6 +423,6 @@ def compare_step(w, pre, flags, run, post, results, model):
     else:
         if run["rc"] == 0:
             diffs.append("model: %s; implementation exit status 0" % ([c["outcome"][0] for c in model["chroms"]],))
-        elif any_errw and "windows" not in run["log"]:
+        elif any_errw and not run.get("errw", "windows" in run["log"]):
             diffs.append("model: window mismatch error; implementation failed otherwise: %s" % run["log"][-300:])
     return diffs
